@@ -475,7 +475,12 @@ static void run_case(char** lines, int nlines)
             char* u = strtok_r(0, " \t\r\n", &save);
             char* m = strtok_r(0, " \t\r\n", &save);
             if (!u || !m || (u[0] != 'p' && u[0] != 'f') || u[1] != ':') { printf("bad-op\n"); continue; }
-            if (storage_get_state(g_st) == DeviceState_Running) { printf("illformed\n"); continue; }
+            // `set` while Running is outside the life cycles C14/C16 quantify over (skipped by the model too);
+            // SIO_ALLOW_SET_RUNNING=1 lets a probe run it on the real code anyway.
+            if (storage_get_state(g_st) == DeviceState_Running && !getenv("SIO_ALLOW_SET_RUNNING")) {
+                printf("illformed\n");
+                continue;
+            }
             char uri[1200];
             snprintf(uri, sizeof uri, "%s%s", u[0] == 'f' ? "file://" : "", u + 2);
             struct StorageProperties props;
